@@ -67,6 +67,14 @@ pub fn execute(
         ExecuteMsg::Receive(msg) => execute_receive(deps, env, info, msg),
         ExecuteMsg::Transfer(msg) => {
             let coin = one_coin(&info)?;
+            // "cw20:<addr>" is how cw20 tokens are encoded in packets and channel balances: a native
+            // coin with such a denom would be booked, refunded and redeemed as that cw20 token
+            if coin.denom.starts_with("cw20:") {
+                return Err(StdError::generic_err(
+                    "Native denom must not start with 'cw20:'",
+                )
+                .into());
+            }
             execute_transfer(deps, env, msg, Amount::Native(coin), info.sender)
         }
         ExecuteMsg::Allow(allow) => execute_allow(deps, env, info, allow),
